@@ -51,7 +51,7 @@ def cond(node, params):
         l, op, r = node.left, node.ops[0], node.comparators[0]
         if isinstance(op, ast.IsNot) and isinstance(l, ast.Name) and l.id in params and isinstance(r, ast.Constant) and r.value is None:
             return f"(CNotNone {coq_string(l.id)})"
-        if isinstance(l, ast.Name) and l.id == "apiv" and isinstance(r, ast.Call) and isinstance(r.func, ast.Name) and r.func.id == "APIVersion" \
+        if isinstance(l, ast.Name) and l.id in APIV_NAMES and isinstance(r, ast.Call) and isinstance(r.func, ast.Name) and r.func.id == "APIVersion" \
                 and len(r.args) == 2 and all(isinstance(a, ast.Constant) and type(a.value) is int for a in r.args):
             a, b = r.args[0].value, r.args[1].value
             if isinstance(op, ast.GtE):
@@ -77,7 +77,7 @@ def stmts(nodes, params, msgvar):
         elif isinstance(n, ast.Assign) and len(n.targets) == 1 and isinstance(n.targets[0], ast.Attribute) \
                 and isinstance(n.targets[0].value, ast.Name) and n.targets[0].value.id == msgvar:
             out.append(f"SAssign {coq_string(n.targets[0].attr)} {expr(n.value, params)}")
-        elif isinstance(n, ast.Assign) and len(n.targets) == 1 and isinstance(n.targets[0], ast.Name) and n.targets[0].id == "apiv" \
+        elif isinstance(n, ast.Assign) and len(n.targets) == 1 and isinstance(n.targets[0], ast.Name) and n.targets[0].id in APIV_NAMES \
                 and ast.unparse(n.value) == "self.api_version":
             continue
         else:
@@ -91,8 +91,22 @@ def ctor(call, params):
     return call.func.id, [f"SAssign {coq_string(k.arg)} {expr(k.value, params)}" for k in call.keywords]
 
 
+APIV_NAMES = set()      # local names of the method being translated that are bound (only) to self.api_version
+
+
 def translate_method(fn):
     args = fn.args
+    APIV_NAMES.clear()
+    bound = {}
+    for n in ast.walk(fn):
+        if isinstance(n, ast.Assign):
+            for t in n.targets:
+                for nm in ast.walk(t):
+                    if isinstance(nm, ast.Name):
+                        bound.setdefault(nm.id, []).append(ast.unparse(n.value))
+        elif isinstance(n, (ast.AnnAssign, ast.AugAssign, ast.NamedExpr)) and isinstance(n.target, ast.Name):
+            bound.setdefault(n.target.id, []).append("?")
+    APIV_NAMES.update(k for k, v in bound.items() if set(v) == {"self.api_version"})
     if args.vararg or args.kwarg or args.posonlyargs:
         err(fn, "unsupported signature")
     params = [a.arg for a in args.args[1:] + args.kwonlyargs]
@@ -100,7 +114,7 @@ def translate_method(fn):
     msg, init, rest, msgvar, sent = None, [], [], None, False
     for i, n in enumerate(body):
         src = ast.unparse(n)
-        if src in ("connection = self._get_connection()", "apiv = self.api_version"):
+        if src == "connection = self._get_connection()" or src in [f"{a} = self.api_version" for a in APIV_NAMES]:
             continue
         if isinstance(n, ast.If) and isinstance(n.test, ast.Name) and n.test.id == "TYPE_CHECKING":
             continue
